@@ -33,7 +33,8 @@ func VerifC08() {
 	req := verifapi.NodeID(0)
 	db.SetNode(store.Node{ID: store.NodeID(req), LastSeen: now, Kind: "geth"})
 	n := verifapi.Param("hosts", 2)
-	wantKind := []string{"", "geth", "parity"}[verifapi.Choose("kind", 3)]
+	// the requested kind: any, one of the two kinds the candidates have, or a kind the pool does not know
+	wantKind := []string{"", "geth", "parity", "nethermind"}[verifapi.Choose("kind", 4)]
 	cands := make([]*verifCand, n)
 	var peered []string
 	for i := 0; i < n; i++ {
